@@ -26,10 +26,10 @@ JoinRecsC(j) == [i \in 1..Len(j) |-> [id |-> j[i][1], seat |-> j[i][2], chips |-
 MOut(st, o) ==
   CASE o.op = "reserve" -> ReserveOutcomes(st, o.id, o.seat, o.chips)
     [] o.op = "leave" -> {LeaveF(st, o.ids)}
-    [] o.op = "update" -> UpdateOutcomes(st, JoinRecsC(o.joins), <<>>)
+    [] o.op = "update" -> UpdateOutcomes(st, JoinRecsC(o.joins), o.ids)
 (* a partial state is compatible with the final one when every player of it that is still there at the end sits where he sits at the end *)
 (* (a pruning of the search only; players that some call of the batch removes may sit elsewhere when they come back) *)
-Leavers(ops) == UNION {{ops[i].ids[j] : j \in 1..Len(ops[i].ids)} : i \in {x \in 1..Len(ops) : ops[x].op = "leave"}}
+Leavers(ops) == UNION {{ops[i].ids[j] : j \in 1..Len(ops[i].ids)} : i \in {x \in 1..Len(ops) : ops[x].op \in {"leave", "update"}}}
 MCompat(st, post, ops) == \A i \in 1..Len(st.players) :
     (st.players[i].id \in MIds(post) /\ st.players[i].id \notin Leavers(ops)) => post.players[MIdx(post, st.players[i].id)].seat = st.players[i].seat
 RECURSIVE MLin(_, _, _, _)
